@@ -193,6 +193,10 @@ impl BufferManager {
             }
         }
 
+        // verification builds: another thread may run between the limit check and the update
+        #[cfg(kani)]
+        crate::verif_yield(1);
+
         // Perform allocation
         self.allocated.fetch_add(size, Ordering::Relaxed);
         self.region_allocated[region.index()].fetch_add(size, Ordering::Relaxed);
